@@ -270,7 +270,7 @@ impl Engine for ProcSim {
     }
     fn runs(&self, tier: Tier) -> u64 {
         match tier {
-            Tier::Quick => 5_000,
+            Tier::Quick => 20_000,
             Tier::Thorough => 500_000,
         }
     }
